@@ -11,7 +11,7 @@ from typing import Final, Any
 from . import AString
 from .. import Params, Parseable
 from ..exceptions import NotParseable
-from ..primitives import Atom, List
+from ..primitives import Atom, List, String
 from ...bytes import BytesFormat, MaybeBytes, Writeable
 
 __all__ = ['FetchPartial', 'FetchRequirement', 'FetchAttribute', 'FetchValue']
@@ -210,9 +210,11 @@ class FetchAttribute(Parseable[bytes]):
             if self.section.specifier:
                 parts.append(self.section.specifier)
                 if self.section.headers:
-                    headers = self.section.headers
+                    headers = [hdr if AString._pattern.fullmatch(hdr)
+                               else String.build(hdr)
+                               for hdr in sorted(self.section.headers)]
                     parts.append(b' ')
-                    parts.append(bytes(List(headers, sort=True)))
+                    parts.append(bytes(List(headers)))
             parts.append(b']')
         if self.partial:
             start, length = (self.partial.start, self.partial.length)
@@ -262,7 +264,7 @@ class FetchAttribute(Parseable[bytes]):
         elif specifier in (b'HEADER.FIELDS', b'HEADER.FIELDS.NOT'):
             params = params.copy(expected=[AString])
             header_list_p, buf = List.parse(after, params)
-            header_list = frozenset([bytes(hdr)
+            header_list = frozenset([hdr.value
                                      for hdr in header_list_p.value])
             if not header_list:
                 raise NotParseable(after)
